@@ -80,9 +80,9 @@ def build_model(name, L, rng):
             lambda: ham.molecular_hamiltonian_mpo(t, v, optimize=flag)
     if name == 'spin_molecular_hamiltonian_mpo':
         t, v = rng.standard_normal((L, L)), rng.standard_normal((L, L, L, L))
-        flag = (True, 1, np.True_)[int(rng.integers(3))]
+        flag = (True, 1, np.True_, None)[int(rng.integers(4))]      # None: the documented default of the option
         return ('tkin, vint = rng.standard_normal((L,L)), rng.standard_normal((L,L,L,L)) from default_rng(seed) after 0 draws',), \
-            lambda: ham.spin_molecular_hamiltonian_mpo(t, v, optimize=flag)
+            (lambda: ham.spin_molecular_hamiltonian_mpo(t, v, optimize=flag)) if flag is not None else (lambda: ham.spin_molecular_hamiltonian_mpo(t, v))
     raise ValueError(name)
 
 
